@@ -1163,4 +1163,188 @@ theorem parseBy_abstract (F : Nat) (p : PSt) (cs : List (List Char)) (R : Fin Un
     simpa [PSt.parseBy] using this
   | cons c rest => exact parseBy_pieces F p c rest R (by simpa using hR) hne
 
+/-! ### the same without the hypothesis "not an error", as long as no call answers `done` -/
+
+/-- One `ParseTokens` call in the middle of a text, no assumption on the outcome of the parse: if
+the call answers an error, the parse of the whole text ends in that error with the same
+expressions; if it answers `more`, the state it leaves continues the parse. (After a `done` the next
+call starts a new iterator with new fuel — `call_step`.) -/
+theorem call_nodone (F : Nat) (p' : PSt) (hco : p'.co ≠ some .finalYield) (hinv : p'.lex.stream.isSome = true)
+    (hfin : p'.lex.finished = false) (hTL : TL F (progOf F p'.co))
+    (more : List Char) (R : Fin Unit × View)
+    (hR : runA (progOf F p'.co).erase ⟨p'.lex.toLexCore, p'.lex.pending ++ more, p'.exprs, true⟩ = R) :
+    ((p'.parseTokens F).1 = .err → R.1 = .stop .err ∧ (p'.parseTokens F).2.1 = R.2.exprs) ∧
+    ((p'.parseTokens F).1 = .more →
+      (p'.parseTokens F).2.2.co ≠ some .finalYield ∧
+      (p'.parseTokens F).2.2.lex.pending = [] ∧ TL F (progOf F (p'.parseTokens F).2.2.co) ∧
+      runA (progOf F (p'.parseTokens F).2.2.co).erase
+        ⟨(p'.parseTokens F).2.2.lex.toLexCore, more, (p'.parseTokens F).2.2.exprs, true⟩ = R) := by
+  have hi : Inv p'.pstate := hinv
+  have hv := view_pstate p'
+  rw [hfin] at hv
+  have hvfin : (view p'.pstate).fin = false := by rw [hv]
+  obtain ⟨sl1, sl2, sl3⟩ := SL_of_TL F _ hTL (view p'.pstate)
+  rw [parseTokens_eq _ _ hco]
+  have hR' : runA (progOf F p'.co).erase
+      ⟨(view p'.pstate).core, (view p'.pstate).runes ++ more, (view p'.pstate).exprs, true⟩ = R := by
+    rw [hv]; exact hR
+  obtain ⟨w1, w2⟩ := run_view (progOf F p'.co).erase p'.pstate hi
+  cases hs : suspendA (progOf F p'.co) (view p'.pstate) with
+  | none =>
+    have happ := suspendA_none_append _ _ hvfin hs more true
+    rw [hR'] at happ
+    have herr := sl3 hs
+    rw [herr] at w1
+    cases hrun : run (progOf F p'.co).erase p'.pstate with
+    | mk fin s1 =>
+      rw [hrun] at w1 w2
+      simp only at w1 w2
+      subst w1
+      refine ⟨fun _ => ⟨by rw [happ, herr], ?_⟩, fun h => by simp at h⟩
+      show s1.exprs = R.2.exprs
+      rw [happ, ← w2]; rfl
+  | some x =>
+    obtain ⟨e, κ, v'⟩ := x
+    obtain ⟨q1, q2⟩ := resume_is_rest_of_run _ _ hvfin e κ v' hs
+    have q2' := q2 more true
+    rw [hR'] at q2'
+    cases e with
+    | false =>
+      obtain ⟨r1, r2, r3⟩ := residual_of_suspendA _ _ hi κ v' hs
+      cases hrun : run (progOf F p'.co).erase p'.pstate with
+      | mk fin s1 =>
+        rw [hrun] at r2 r3
+        have hfinm : fin = .stop .more := by
+          cases fin with
+          | ret a => simp [Fin.isMore] at r3
+          | stop st => cases st <;> simp_all [Fin.isMore]
+        subst hfinm
+        simp only [r1, Option.map_some]
+        have hruns : s1.lex.pending ++ s1.fut.flatten = [] := by
+          have : (view s1).runes = [] := by rw [r2]; exact q1
+          exact this
+        have hc : s1.lex.toLexCore = v'.core := by rw [← r2]; rfl
+        have he : s1.exprs = v'.exprs := by rw [← r2]; rfl
+        refine ⟨fun h => by simp at h, fun _ => ⟨by simp, (List.append_eq_nil_iff.mp hruns).1, sl2 κ v' hs, ?_⟩⟩
+        simp only [progOf, hc, he]
+        exact q2'.symm
+    | true =>
+      obtain ⟨_, hrunA⟩ := sl1 κ v' hs
+      rw [hrunA] at w1
+      cases hrun : run (progOf F p'.co).erase p'.pstate with
+      | mk fin s1 =>
+        rw [hrun] at w1
+        simp only at w1
+        subst w1
+        exact ⟨fun h => by simp at h, fun h => by simp at h⟩
+
+theorem trace_mem_deliverRest (F : Nat) : ∀ (rest : List (List Char)) (p : PSt) (tr : List Status) (x : Status),
+    x ∈ tr → x ∈ (p.deliverRest F tr rest).1.trace := by
+  intro rest
+  induction rest with
+  | nil => intro p tr x hx; simp [PSt.deliverRest, hx]
+  | cons c rest ih =>
+    intro p tr x hx
+    rw [PSt.deliverRest]
+    generalize (p.newInput c).parseTokens F = r
+    obtain ⟨st, ex, p'⟩ := r
+    simp only
+    split
+    · simp [hx]
+    · exact ih _ _ x (List.mem_cons_of_mem _ hx)
+
+theorem deliverRest_nodone (F : Nat) (R : Fin Unit × View) :
+    ∀ (rest : List (List Char)) (p : PSt) (tr : List Status),
+      p.co ≠ some .finalYield → p.lex.pending = [] → TL F (progOf F p.co) →
+      runA (progOf F p.co).erase ⟨p.lex.toLexCore, rest.flatten ++ eofPiece, p.exprs, true⟩ = R →
+      Status.done ∉ (p.deliverRest F tr rest).1.trace →
+      (p.deliverRest F tr rest).1.status = statusOf R.1 ∧ (p.deliverRest F tr rest).1.exprs = R.2.exprs := by
+  intro rest
+  induction rest with
+  | nil =>
+    intro p tr hco hp hTL hR _
+    obtain ⟨a1, a2, a3, _⟩ := addNextStream_read p.lex eofPiece hp
+    have := final_step F p.endInput hco (show (p.lex.addNextStream eofPiece).stream.isSome = true from a3) R
+      (by
+        show runA (progOf F p.co).erase
+          ⟨(p.lex.addNextStream eofPiece).toLexCore, (p.lex.addNextStream eofPiece).pending, p.exprs, true⟩ = R
+        rw [a1, a2]; simpa using hR)
+    simpa [PSt.deliverRest] using this
+  | cons c rest ih =>
+    intro p tr hco hp hTL hR hnd
+    obtain ⟨a1, a2, a3, a4⟩ := addNextStream_read p.lex c hp
+    have hR' : runA (progOf F (p.newInput c).co).erase
+        ⟨(p.newInput c).lex.toLexCore, (p.newInput c).lex.pending ++ (rest.flatten ++ eofPiece), (p.newInput c).exprs, true⟩ = R := by
+      simp only [PSt.newInput, a1, a2]
+      simpa using hR
+    obtain ⟨b1, b2⟩ := call_nodone F (p.newInput c) hco a3 a4 hTL (rest.flatten ++ eofPiece) R hR'
+    rw [PSt.deliverRest] at hnd ⊢
+    cases hst : ((p.newInput c).parseTokens F).1 with
+    | err =>
+      obtain ⟨c1, c2⟩ := b1 hst
+      simp only [hst, beq_self_eq_true, ↓reduceIte]
+      rw [c1]
+      exact ⟨rfl, c2⟩
+    | more =>
+      obtain ⟨c1, c2, c3, c4⟩ := b2 hst
+      have hb : (Status.more == Status.err) = false := by decide
+      simp only [hst, hb, Bool.false_eq_true, ↓reduceIte] at hnd ⊢
+      exact ih _ _ c1 c2 c3 c4 hnd
+    | done =>
+      exfalso
+      have hb : (Status.done == Status.err) = false := by decide
+      simp only [hst, hb, Bool.false_eq_true, ↓reduceIte] at hnd
+      exact hnd (trace_mem_deliverRest F rest _ _ .done (List.mem_cons_self ..))
+
+theorem parseBy_cons_eq (F : Nat) (p : PSt) (c : List Char) (rest : List (List Char)) :
+    p.parseBy F .resetAdd (c :: rest) =
+      if ((p.resetAddNewInput c).parseTokens F).1 == .err then
+        (⟨((p.resetAddNewInput c).parseTokens F).1, ((p.resetAddNewInput c).parseTokens F).2.1, []⟩,
+          ((p.resetAddNewInput c).parseTokens F).2.2)
+      else ((p.resetAddNewInput c).parseTokens F).2.2.deliverRest F [((p.resetAddNewInput c).parseTokens F).1] rest := rfl
+
+/-- **Up to the first `done`** (and including an error): as long as no `ParseTokens` call answers
+`done`, the call-by-call protocol computes the abstract parse of the whole text, whatever its
+outcome — `more`, `done` at the very end, or an error (a syntax error or the fuel of the model). -/
+theorem parseBy_nodone (F : Nat) (p : PSt) (cs : List (List Char)) (R : Fin Unit × View)
+    (hR : runA (topLoop F) ⟨LexCore.init, cs.flatten ++ eofPiece, [], true⟩ = R)
+    (hnd : Status.done ∉ (p.parseBy F .resetAdd cs).1.trace) :
+    (p.parseBy F .resetAdd cs).1.status = statusOf R.1 ∧ (p.parseBy F .resetAdd cs).1.exprs = R.2.exprs := by
+  have key : ∀ (c : List Char) (rest : List (List Char)),
+      runA (topLoop F) ⟨LexCore.init, c ++ (rest.flatten ++ eofPiece), [], true⟩ = R →
+      Status.done ∉ (p.parseBy F .resetAdd (c :: rest)).1.trace →
+      (p.parseBy F .resetAdd (c :: rest)).1.status = statusOf R.1 ∧ (p.parseBy F .resetAdd (c :: rest)).1.exprs = R.2.exprs := by
+    intro c rest hR hnd
+    obtain ⟨a1, a2, a3, a4, a5, a6⟩ := resetAddNewInput_lex p c
+    have hTL : TL F (progOf F (p.resetAddNewInput c).co) := by rw [a5]; exact .top F (Nat.le_refl _)
+    have hR' : runA (progOf F (p.resetAddNewInput c).co).erase
+        ⟨(p.resetAddNewInput c).lex.toLexCore, (p.resetAddNewInput c).lex.pending ++ (rest.flatten ++ eofPiece),
+          (p.resetAddNewInput c).exprs, true⟩ = R := by
+      rw [a1, a2, a5, a6]
+      simp only [progOf, erase_topLoop]
+      exact hR
+    obtain ⟨b1, b2⟩ := call_nodone F (p.resetAddNewInput c) (by rw [a5]; simp) a3 a4 hTL _ R hR'
+    rw [parseBy_cons_eq] at hnd ⊢
+    cases hst : ((p.resetAddNewInput c).parseTokens F).1 with
+    | err =>
+      obtain ⟨c1, c2⟩ := b1 hst
+      simp only [hst, beq_self_eq_true, ↓reduceIte]
+      rw [c1]
+      exact ⟨rfl, c2⟩
+    | more =>
+      obtain ⟨c1, c2, c3, c4⟩ := b2 hst
+      have hb : (Status.more == Status.err) = false := by decide
+      simp only [hst, hb, Bool.false_eq_true, ↓reduceIte] at hnd ⊢
+      exact deliverRest_nodone F R rest _ _ c1 c2 c3 c4 hnd
+    | done =>
+      exfalso
+      have hb : (Status.done == Status.err) = false := by decide
+      simp only [hst, hb, Bool.false_eq_true, ↓reduceIte] at hnd
+      exact hnd (trace_mem_deliverRest F rest _ _ .done (List.mem_cons_self ..))
+  cases cs with
+  | nil =>
+    have := key [] [] (by simpa using hR) (by simpa [PSt.parseBy] using hnd)
+    simpa [PSt.parseBy] using this
+  | cons c rest => exact key c rest (by simpa using hR) hnd
+
 end ZygoVerif.Parser
